@@ -308,7 +308,7 @@ def check_write(w, after, policy, now0, fail, bump):
             if stored and not expired(policy, exp, ts):
                 n_live += 1
         if reply != ":%d" % n_live:
-            fail("dead", cid, "DEL counted an expired key: reply %s, live keys %d" % (reply, n_live), SIG_DEL, cmd=name, args=w["hexargs"])
+            fail("dead", cid, "DEL must count exactly the keys that are live at its timestamp: reply %s, live keys %d" % (reply, n_live), None, cmd=name, args=w["hexargs"])
         return
     for k in dict.fromkeys(keys):
         stored, exp, ver = before.header(t, k)
